@@ -299,39 +299,50 @@ def rebuild(c):
 def _default_instance(cls, a):
     """An instance whose PRIVATE state is what the class's own constructor gives a new object (so that
     a library object rebuilt from its public value is exactly 'that value in a fresh interpreter');
-    its public attributes are overwritten by the caller afterwards."""
+    its public attributes are overwritten by the caller afterwards. Constructors are tried with the
+    object's own public values first (robust against constructors that validate), then with dummies;
+    `__new__` is the last resort."""
     name = cls.__name__
-    try:
-        if name == "Stabilizer":
-            z = np.zeros((1, 1), dtype=np.int8)
-            return cls((z, z.copy()))
-        if name == "Graph":
-            return cls(1)
-        if name == "StabilizerCircuitInfo":
-            return cls(0, "0:0:0:")
-        if name == "MUBInfo":
-            return cls(0, ["0:0:0"])
-        if name == "ReadoutInfo":
-            return cls(None, 0, None)
-        if name == "StabilizerMeasurementFitter":
-            from qiskit import QuantumCircuit
-            qc = QuantumCircuit(1)
-            qc.metadata = {"readout info": a.get("readout_info")}
-            return cls(a.get("result"), qc, a.get("result_index", 0))
-        if name == "FullStateTomographyFitter":
-            return cls(a.get("result"), a.get("circuits"))
-        if name == "CircuitResult":
-            return cls({}, None)
-        if name == "BinaryResult":
-            return cls(0, 0)
-        if name == "NTuple":
-            return cls([])
-        if name == "Repr":
-            return cls()
-        if name.startswith("LCClass") and name != "LCClassBase":
-            return cls(a.get("type"), a.get("data"))
-    except Exception:
-        pass
+    for attempt in ("values", "dummies"):
+        try:
+            v = attempt == "values"
+            if name == "Stabilizer":
+                if v:
+                    return cls((a["R"], a["S"], a["phases"]))
+                z = np.zeros((1, 1), dtype=np.int8)
+                return cls((z, z.copy()))
+            if name == "Graph":
+                return cls(a["adjacency_matrix"]) if v else cls(1)
+            if name == "StabilizerCircuitInfo":
+                if v:
+                    return cls(a["num_qubits"], f"{int(a['graph_id'])}:{int(a['cost'])}:{int(a['depth'])}:{a['circuit_string']}")
+                return cls(0, "0:0:0:")
+            if name == "MUBInfo":
+                if v:
+                    return cls(a["num_qubits"], [f"{int(a['total_cost'])}:{int(a['max_cost'])}:{int(a['max_depth'])}"])
+                return cls(0, ["0:0:0"])
+            if name == "ReadoutInfo":
+                return cls(a["circuit"], a["total_num_qubits"], a["qubits"]) if v else cls(None, 0, None)
+            if name == "StabilizerMeasurementFitter":
+                from qiskit import QuantumCircuit
+                qc = QuantumCircuit(1)
+                qc.metadata = {"readout info": a.get("readout_info")}
+                return cls(a.get("result"), qc, a.get("result_index", 0))
+            if name == "FullStateTomographyFitter":
+                return cls(a.get("result"), a.get("circuits") if v else [])
+            if name == "CircuitResult":
+                return cls({}, None)
+            if name == "BinaryResult":
+                return cls(a["bitstring"], a["count"]) if v else cls(0, 0)
+            if name == "NTuple":
+                return cls(list(a["data"])) if v else cls([])
+            if name == "Repr":
+                return cls()
+            if name.startswith("LCClass") and name != "LCClassBase":
+                return cls(a["type"], a["data"]) if v else cls(0)
+            break
+        except Exception:
+            continue
     return cls.__new__(cls)
 
 
